@@ -16,7 +16,7 @@
       [s] in which the moved variable sits at level [p].
     The only error outcome is [Err EOracle] (iteration-order oracle of the
     model; no Python counterpart). *)
-From DD Require Import Sift4.
+From DD Require Import Sift9.
 
 (** one adjacent swap, arguments in either order *)
 Theorem C07b_swap_adj L s al i j r s' :
@@ -45,7 +45,7 @@ Theorem C07b_shift_loop L s0 a (down : bool) : Inv s0 → ∀ n i al sizes s r s
     vperm (mv a (if down then i + n else i - n)) s0 s' ∧
     (∀ p v, (p, v) ∈ sizes' → Visited L s0 a p v) ∧
     (∀ p, p ∈ sizes.*1 → p ∈ sizes'.*1) ∧
-    (0 < n → ∀ p, between i (if down then i + n else i - n) p → p ∈ sizes'.*1) ∧
+    (0 < n → ∀ p, Sift1.between i (if down then i + n else i - n) p → p ∈ sizes'.*1) ∧
     (n = 0 → sizes' = sizes).
 Proof. exact (shift_loop_spec L s0 a down). Qed.
 
@@ -56,7 +56,7 @@ Theorem C07b_shift L s a e al r s' :
   ∃ sizes al', r = Ok (sizes, al') ∧ Stp L s s' ∧ levels_ok s' al' ∧
     vperm (mv a e) s s' ∧
     (∀ p v, (p, v) ∈ sizes → Visited L s a p v) ∧
-    (a ≠ e → ∀ p, between a e p → p ∈ sizes.*1) ∧
+    (a ≠ e → ∀ p, Sift1.between a e p → p ∈ sizes.*1) ∧
     (a = e → sizes = []).
 Proof. exact (shift_spec L s a e al r s'). Qed.
 
@@ -95,3 +95,107 @@ Theorem C07b_reorder_to_pairs pairs s L r s' :
   (r = Ok tt ∧ Stp L s s' ∧ dom (vars s') = dom (vars s) ∧ rr s' = rr s ∧
    ∀ x y, (x, y) ∈ pairs → adj s' x y).
 Proof. exact (reorder_to_pairs_correct pairs s L r s'). Qed.
+
+(** ** Sifting.  Size canonicity: the number of nodes of a manager without
+    unreferenced nodes is determined by the order and the held functions *)
+Theorem C07b_size_determined L s1 s2 :
+  Inv s1 → Inv s2 → Counts s1 L → Counts s2 L → nozero s1 → nozero s2 →
+  nvars s1 = nvars s2 → same_held L s1 s2 → len s1 = len s2.
+Proof. exact (size_determined L s1 s2). Qed.
+
+(** [_reorder_var]: the assertions [mk == len] and [len <= m] hold *)
+Theorem C07b_reorder_var L s var al r s' :
+  Gd L s → nozero s → levels_ok s al → is_Some (vars s !! var) →
+  reorder_var var al s = (r, s') →
+  r = Err EOracle ∨
+  ∃ k al' lv, r = Ok (k, al') ∧ vars s !! var = Some lv ∧
+    Stp L s s' ∧ levels_ok s' al' ∧ vperm (mv lv k) s s' ∧ len s' ≤ len s.
+Proof. exact (reorder_var_spec L s var al r s'). Qed.
+
+(** [_apply_sifting] *)
+Theorem C07b_apply_sifting s L r s' :
+  Inv s → Counts s L → last_len s = None →
+  apply_sifting s = (r, s') →
+  r = Err EOracle ∨
+  (r = Ok tt ∧ Gd L s' ∧ nozero s' ∧ rr s' = rr s ∧
+   dom (vars s') = dom (vars s) ∧ keepsH L s s' ∧ len s' ≤ len s).
+Proof. exact (apply_sifting_spec s L r s'). Qed.
+
+(** the premise of the decorator theorems of [Proofs/Dynamic.v] *)
+Theorem C07b_sifting_ok' : sifting_ok'.
+Proof. exact sifting_ok'_holds. Qed.
+
+(** [reorder] with ANY argument never damages the manager *)
+Theorem C07b_reorder_safe o s L r s' :
+  Gd L s → reorder o s = (r, s') →
+  r = Err EOracle ∨
+  (Gd L s' ∧ dom (vars s') = dom (vars s) ∧ keepsH L s s' ∧ rr s' = rr s).
+Proof. exact (reorder_safe o s L r s'). Qed.
+
+(** the public entry points, for any setting of dynamic reordering *)
+Theorem C07b_reorder_pub_safe o s L r s' :
+  Inv s → Counts s L → reorder_pub o s = (r, s') →
+  r = Err EOracle ∨
+  (Inv s' ∧ Counts s' L ∧ last_len s' = last_len s ∧
+   dom (vars s') = dom (vars s) ∧ keepsH L s s' ∧ rr s' = rr s).
+Proof. exact (reorder_pub_safe o s L r s'). Qed.
+
+Theorem C07b_reorder_pub_sift s L r s' :
+  Inv s → Counts s L → reorder_pub None s = (r, s') →
+  r = Err EOracle ∨
+  (r = Ok tt ∧ Inv s' ∧ Counts s' L ∧ last_len s' = last_len s ∧ nozero s' ∧
+   dom (vars s') = dom (vars s) ∧ keepsH L s s' ∧ rr s' = rr s ∧ len s' ≤ len s).
+Proof. exact (reorder_pub_sift s L r s'). Qed.
+
+Theorem C07b_reorder_pub_order order s L r s' :
+  Inv s → Counts s L →
+  dom order = dom (vars s) →
+  (∀ v v' l, order !! v = Some l → order !! v' = Some l → v = v') →
+  (∀ v l, order !! v = Some l → l < nvars s) →
+  (∀ u, u ∈ roots s → held L u) →
+  reorder_pub (Some order) s = (r, s') →
+  r = Err EOracle ∨
+  (r = Ok tt ∧ Inv s' ∧ Counts s' L ∧ last_len s' = last_len s ∧ vars s' = order ∧
+   keepsH L s s' ∧ rr s' = rr s).
+Proof. exact (reorder_pub_order order s L r s'). Qed.
+
+Theorem C07b_reorder_to_pairs_pub pairs s L r s' :
+  Inv s → Counts s L →
+  NoDup (pairs.*1 ++ pairs.*2) →
+  (∀ v, v ∈ pairs.*1 ++ pairs.*2 → is_Some (vars s !! v)) →
+  reorder_to_pairs_pub pairs s = (r, s') →
+  r = Err EOracle ∨
+  (r = Ok tt ∧ Inv s' ∧ Counts s' L ∧ last_len s' = last_len s ∧
+   dom (vars s') = dom (vars s) ∧ keepsH L s s' ∧ rr s' = rr s ∧
+   ∀ x y, (x, y) ∈ pairs → adj s' x y).
+Proof. exact (reorder_to_pairs_pub_correct pairs s L r s'). Qed.
+
+(** with an empty oracle tape (the state between two driver operations)
+    there is no oracle error *)
+Theorem C07b_no_oracle o : nt (reorder_pub o).
+Proof. exact (nt_reorder_pub o). Qed.
+
+(** the [keeps_refs] shape of Proofs/AutorefInv.v, restricted to HELD nodes *)
+Theorem C07b_reorder_pub_keeps_held o s L r s' :
+  Inv s → last_len s = None → Counts s L → reorder_pub o s = (r, s') →
+  r = Err EOracle ∨ keeps_held s L s'.
+Proof. exact (reorder_pub_keeps_held o s L r s'). Qed.
+
+(** the premise of the JSON loader with [load_order=True] *)
+Theorem C07b_reorder_order_ok order s L :
+  Inv s → Counts s L → last_len s = None → tape s = [] →
+  dom order = dom (vars s) →
+  (∀ v v' l, order !! v = Some l → order !! v' = Some l → v = v') →
+  (∀ v l, order !! v = Some l → l < nvars s) →
+  (∀ u, u ∈ roots s → held L u) →
+  ∃ s', reorder (Some order) s = (Ok tt, s') ∧
+    Inv s' ∧ vars s' = order ∧ last_len s' = None ∧ Counts s' L ∧ keepsH L s s' ∧
+    rr s' = rr s ∧ tape s' = [].
+Proof. exact (reorder_order_ok order s L). Qed.
+
+Theorem C07b_sifting_notape s L :
+  Inv s → Counts s L → last_len s = None → tape s = [] →
+  ∃ s', reorder None s = (Ok tt, s') ∧ Inv s' ∧ Counts s' L ∧ last_len s' = None ∧
+    nozero s' ∧ rr s' = rr s ∧ dom (vars s') = dom (vars s) ∧ keepsH L s s' ∧
+    len s' ≤ len s ∧ tape s' = [].
+Proof. exact (sifting_ok_notape s L). Qed.
